@@ -40,6 +40,34 @@ def cases(tier, rng):
     for a in small:
         for b in small:
             yield Case("notes.is_enharmonic", [a, b], "enh")
+    # names whose accidentals add up to one, two or three octaves and their neighbours, written with one kind of accidental,
+    # with the other kind in front, behind and interleaved (deterministic: what a single wrap-around instead of `% 12` gets wrong)
+    def spellings(letter, k):
+        sgn, opp = ("#", "b") if k >= 0 else ("b", "#")
+        m = abs(k)
+        yield letter + sgn * m
+        yield letter + opp * 3 + sgn * (m + 3)
+        yield letter + sgn * (m + 2) + opp * 2
+        yield letter + (sgn + opp) * 4 + sgn * m
+    far = [k for base in (12, 24, 36) for k in (base - 1, base, base + 1, base + 2)] + [6, 7]
+    for letter in LETTERS:
+        for k in far:
+            for kk in (k, -k):
+                for s in spellings(letter, kk):
+                    yield Case("notes.note_to_int", [s], "pc/octaves")
+                    yield Case("notes.reduce_accidentals", [s], "reduce/octaves")
+                    yield Case("notes.remove_redundant_accidentals", [s], "redund/octaves")
+                    yield Case("notes.augment", [s], "aug/octaves")
+                    yield Case("notes.diminish", [s], "dim/octaves")
+                    yield Case("notes.is_valid_note", [s], "valid/octaves")
+    for letter in LETTERS:
+        for a0 in (-2, 0, 1):
+            for d in (12, -12, 24, -24, 11, 13, -11, -13, 0):
+                for x in spellings(letter, a0):
+                    for y in list(spellings(letter, a0 + d))[:2]:
+                        yield Case("notes.is_enharmonic", [x, y], "enh/octaves")
+                other = LETTERS[(LETTERS.index(letter) + 1) % 7]
+                yield Case("notes.is_enharmonic", [letter + ("#" * (a0 + 14)), other + ("#" * (a0 + 14 + d)) if a0 + 14 + d >= 0 else other], "enh/octaves")
     for _ in range(300 if tier == "quick" else 3000):
         a = rng.choice(LETTERS) + "".join(rng.choice("#b") for _ in range(rng.randint(0, 30)))
         b = rng.choice(LETTERS) + "".join(rng.choice("#b") for _ in range(rng.randint(0, 30)))
